@@ -1,17 +1,544 @@
-//! C20 — engine not implemented yet.
+//! C20 — resource threads: consistent shared globals; pause/resume/stop always work.
+//! Core X3: every interleaving (at synchronisation-operation granularity, preemption-bounded) of
+//! real `ResourceRunner` threads sharing `SharedGlobals`, driven by a controller thread.
 
 use crate::fw::*;
-use crate::iso::WorkerFn;
-use serde_json::Value;
+use crate::iso::{self, PoolCfg, WorkerFn};
+use crate::x3;
+use serde_json::{json, Value};
+use std::sync::{Arc, Mutex as StdMutex};
+use std::time::{Duration, Instant};
+use trust_runtime::error::RuntimeError;
+use trust_runtime::harness::TestHarness;
+use trust_runtime::retain::RetainStore;
+use trust_runtime::scheduler::{ManualClock, ResourceRunner, ResourceState, SharedGlobals, StartGate};
+use trust_runtime::value::{Duration as StDuration, Value as StValue};
+use trust_runtime::verif_sync;
+use trust_runtime::RetainSnapshot;
 
-pub fn run(_ctx: &Ctx) -> EngineResult {
-    machinery("engine C20 not implemented")
+const HORIZON: u64 = 6000;
+
+fn program(i: usize, fault_at: Option<i64>) -> String {
+    let fault = match fault_at {
+        Some(k) => format!("IF c = {k} THEN x := 1 / z; END_IF;\n"),
+        None => String::new(),
+    };
+    format!(
+        r#"
+CONFIGURATION Conf
+VAR_GLOBAL
+    n : DINT := 0; m : DINT := 0; bad : BOOL := FALSE; p0 : DINT := 0; p1 : DINT := 0; p2 : DINT := 0;
+    z : DINT := 0; x : DINT := 0;
+END_VAR
+VAR_GLOBAL RETAIN
+    c : DINT := 0;
+END_VAR
+PROGRAM P1 : Main;
+END_CONFIGURATION
+
+PROGRAM Main
+c := c + 1;
+{fault}n := n + 1;
+m := m + 1;
+bad := bad OR (n <> m);
+p{i} := p{i} + 1;
+END_PROGRAM
+"#
+    )
 }
 
-pub fn check_case(_case: &Value) -> Vec<Violation> {
-    Vec::new()
+/// Retain store that records every snapshot it is asked to save (un-instrumented std mutex:
+/// never held across a scheduling point).
+#[derive(Clone)]
+struct CountingStore {
+    saved: Arc<StdMutex<Vec<i64>>>,
+}
+
+impl RetainStore for CountingStore {
+    fn load(&self) -> Result<RetainSnapshot, RuntimeError> {
+        Ok(RetainSnapshot::default())
+    }
+    fn store(&self, snapshot: &RetainSnapshot) -> Result<(), RuntimeError> {
+        let c = snapshot.values().get("c").map(as_i64).unwrap_or(-1);
+        self.saved.lock().unwrap().push(c);
+        Ok(())
+    }
+}
+
+fn as_i64(v: &StValue) -> i64 {
+    match v {
+        StValue::SInt(x) => i64::from(*x),
+        StValue::Int(x) => i64::from(*x),
+        StValue::DInt(x) => i64::from(*x),
+        StValue::LInt(x) => *x,
+        StValue::USInt(x) => i64::from(*x),
+        StValue::UInt(x) => i64::from(*x),
+        StValue::UDInt(x) => i64::from(*x),
+        StValue::ULInt(x) => *x as i64,
+        _ => -1,
+    }
+}
+
+fn state_name(s: ResourceState) -> &'static str {
+    match s {
+        ResourceState::Boot => "Boot",
+        ResourceState::Ready => "Ready",
+        ResourceState::Running => "Running",
+        ResourceState::Paused => "Paused",
+        ResourceState::Faulted => "Faulted",
+        ResourceState::Stopped => "Stopped",
+    }
+}
+
+/// One complete execution of a scenario under the controlled scheduler (worker side).
+pub fn worker_exec(case: &Value) -> Value {
+    let family = case["family"].as_str().unwrap_or("lost").to_string();
+    let nres = case["resources"].as_u64().unwrap_or(2) as usize;
+    let advances = case["advances"].as_u64().unwrap_or(1) as usize;
+    x3::run_controlled(case, HORIZON, move || scenario(&family, nres, advances))
+}
+
+fn scenario(family: &str, nres: usize, advances: usize) -> Value {
+    let interval = StDuration::from_millis(100);
+    let mut runtimes = Vec::new();
+    let mut stores = Vec::new();
+    for i in 0..nres {
+        let fault_at = if family == "fault" && i == 0 { Some(2) } else { None };
+        let mut rt = TestHarness::from_source(&program(i, fault_at))
+            .expect("C20 scenario program must compile")
+            .into_runtime();
+        let store = CountingStore {
+            saved: Arc::new(StdMutex::new(Vec::new())),
+        };
+        rt.set_retain_store(Some(Box::new(store.clone())), None);
+        stores.push(store);
+        runtimes.push(rt);
+    }
+    let names: Vec<smol_str::SmolStr> = ["n", "m", "bad", "p0", "p1", "p2"].iter().map(|s| (*s).into()).collect();
+    let shared = SharedGlobals::from_runtime(names, &runtimes[0]).expect("shared globals");
+    let clocks: Vec<ManualClock> = (0..nres).map(|_| ManualClock::new()).collect();
+    let gate = Arc::new(StartGate::new());
+    let mut handles = Vec::new();
+    for (i, rt) in runtimes.into_iter().enumerate() {
+        let mut runner = ResourceRunner::new(rt, clocks[i].clone(), interval);
+        if family == "gated" && i == 0 {
+            runner = runner.with_start_gate(gate.clone());
+        }
+        let h = runner
+            .spawn_with_shared(format!("res-{i}"), shared.clone())
+            .expect("spawn resource");
+        handles.push(h);
+    }
+    let get = |name: &str| shared.get(name).as_ref().map(as_i64).unwrap_or(-1);
+    let mut obs = serde_json::Map::new();
+
+    // poll (visibly, with yields) until resource i has entered its k-th sleep, i.e. finished k cycles
+    let wait_sleeps = |i: usize, k: u64| -> bool {
+        let mut polls = 0;
+        while clocks[i].sleep_calls() < k {
+            polls += 1;
+            if polls > 300 {
+                return false;
+            }
+            verif_sync::yield_point("ctl.wait_cycle");
+        }
+        true
+    };
+    match family {
+        "race-stop" => {
+            // the controller does not wait for anything: stop arrives at an arbitrary moment
+            for _ in 0..advances {
+                for c in &clocks {
+                    c.advance(interval);
+                }
+            }
+        }
+        "lost" => {
+            // synchronised rounds: every resource completes exactly advances+1 cycles
+            let mut ok = true;
+            for round in 0..advances {
+                for i in 0..nres {
+                    ok &= wait_sleeps(i, round as u64 + 1);
+                }
+                for c in &clocks {
+                    c.advance(interval);
+                }
+            }
+            for i in 0..nres {
+                ok &= wait_sleeps(i, advances as u64 + 1);
+            }
+            obs.insert("rounds_completed".into(), json!(ok));
+        }
+        "fault" => {
+            // resource 0 faults in its second cycle; resource 1.. must keep cycling
+            let mut ok = true;
+            for i in 0..nres {
+                ok &= wait_sleeps(i, 1);
+            }
+            for c in &clocks {
+                c.advance(interval);
+            }
+            let mut polls = 0;
+            while handles[0].state() != ResourceState::Faulted && polls < 300 {
+                polls += 1;
+                verif_sync::yield_point("ctl.wait_fault");
+            }
+            obs.insert("fault_seen".into(), json!(handles[0].state() == ResourceState::Faulted));
+            for round in 0..advances {
+                for i in 1..nres {
+                    ok &= wait_sleeps(i, round as u64 + 2);
+                }
+                for c in &clocks {
+                    c.advance(interval);
+                }
+            }
+            for i in 1..nres {
+                ok &= wait_sleeps(i, advances as u64 + 2);
+            }
+            obs.insert("rounds_completed".into(), json!(ok));
+        }
+        "pause" | "stop-paused" => {
+            let ctl = handles[0].control();
+            ctl.pause().expect("pause command");
+            let mut polls = 0;
+            let mut seen = false;
+            while polls < 300 {
+                if ctl.state() == ResourceState::Paused {
+                    seen = true;
+                    break;
+                }
+                polls += 1;
+                verif_sync::yield_point("ctl.wait_paused");
+            }
+            obs.insert("pause_seen".into(), json!(seen));
+            if seen {
+                let before = get("p0");
+                for _ in 0..advances.max(1) {
+                    for c in &clocks {
+                        c.advance(interval);
+                    }
+                    verif_sync::yield_point("ctl.pause_window");
+                }
+                verif_sync::yield_point("ctl.pause_window");
+                let after = get("p0");
+                obs.insert("p0_at_paused".into(), json!(before));
+                obs.insert("p0_before_resume".into(), json!(after));
+                obs.insert("state_before_resume".into(), json!(state_name(ctl.state())));
+            }
+            if family == "pause" {
+                ctl.resume().expect("resume command");
+                // give the resumed resource the chance to run again before stopping it
+                let mut polls = 0;
+                let base = get("p0");
+                while polls < 300 && get("p0") == base && seen {
+                    polls += 1;
+                    verif_sync::yield_point("ctl.wait_resumed");
+                }
+                obs.insert("progress_after_resume".into(), json!(get("p0") > base || !seen));
+            }
+        }
+        "gated" => {
+            // resource 0 waits at a start gate that is never opened; the others run
+            for c in &clocks {
+                c.advance(interval);
+            }
+        }
+        _ => {}
+    }
+
+    for h in &handles {
+        h.stop();
+    }
+    let mut joins = Vec::new();
+    for h in handles.iter_mut() {
+        joins.push(h.join().is_ok());
+    }
+    let states: Vec<&str> = handles.iter().map(|h| state_name(h.state())).collect();
+    let saved: Vec<Vec<i64>> = stores.iter().map(|s| s.saved.lock().unwrap().clone()).collect();
+    obs.insert("advances".into(), json!(advances));
+    obs.insert("n".into(), json!(get("n")));
+    obs.insert("m".into(), json!(get("m")));
+    obs.insert("bad".into(), json!(matches!(shared.get("bad"), Some(StValue::Bool(true)))));
+    obs.insert("p".into(), json!((0..nres).map(|i| get(&format!("p{i}"))).collect::<Vec<_>>()));
+    obs.insert("saved".into(), json!(saved));
+    obs.insert("states".into(), json!(states));
+    obs.insert("joins".into(), json!(joins));
+    obs.insert("last_errors".into(), json!(handles.iter().map(|h| h.last_error().map(|e| format!("{e:?}"))).collect::<Vec<_>>()));
+    Value::Object(obs)
+}
+
+/// Oracle on one complete execution.
+fn judge(family: &str, nres: usize, rec: &Value) -> Vec<Violation> {
+    let obs = &rec["obs"];
+    let mut out = Vec::new();
+    let mut v = |clause: &str, what: String| {
+        out.push(Violation {
+            signature: format!("C20/{clause}/{family}"),
+            what,
+            case: json!({"clause": clause}),
+        });
+    };
+    let n = obs["n"].as_i64().unwrap_or(-1);
+    let m = obs["m"].as_i64().unwrap_or(-1);
+    let p: Vec<i64> = obs["p"].as_array().map(|a| a.iter().map(|x| x.as_i64().unwrap_or(-1)).collect()).unwrap_or_default();
+    let states: Vec<String> = obs["states"].as_array().map(|a| a.iter().map(|x| x.as_str().unwrap_or("").to_string()).collect()).unwrap_or_default();
+    let saved: Vec<Vec<i64>> = obs["saved"]
+        .as_array()
+        .map(|a| a.iter().map(|s| s.as_array().map(|b| b.iter().map(|x| x.as_i64().unwrap_or(-1)).collect()).unwrap_or_default()).collect())
+        .unwrap_or_default();
+    // contributions: private cycle counter saved at stop; the faulting resource completes exactly
+    // one cycle before the faulting one (which changes no shared variable)
+    let mut contrib = Vec::new();
+    for i in 0..nres {
+        let faulting = family == "fault" && i == 0;
+        let gated = family == "gated" && i == 0;
+        let expected_state = if faulting { "Faulted" } else { "Stopped" };
+        // a faulting resource that was stopped before reaching its second cycle is Stopped
+        let st = states.get(i).map(String::as_str).unwrap_or("");
+        let state_ok = st == expected_state;
+        if !state_ok {
+            v("state", format!("resource {i} ended in state {st}, expected {expected_state} after stop+join"));
+        }
+        if obs["joins"][i].as_bool() != Some(true) {
+            v("join", format!("join of resource {i} did not return Ok"));
+        }
+        let s = saved.get(i).cloned().unwrap_or_default();
+        if st == "Stopped" && !gated {
+            if s.len() != 1 {
+                v("save-count", format!("resource {i} stopped but retained data was saved {} times (expected once)", s.len()));
+            }
+        } else if s.len() > 1 {
+            v("save-count", format!("resource {i} saved retained data {} times", s.len()));
+        }
+        let c = if st == "Stopped" {
+            if gated { 0 } else { s.last().copied().unwrap_or(-1) }
+        } else {
+            1
+        };
+        contrib.push(c);
+    }
+    let sum: i64 = contrib.iter().sum();
+    if contrib.iter().all(|c| *c >= 0) {
+        if n != sum {
+            v("lost-update", format!("shared counter n = {n} but the resources completed {contrib:?} cycles (sum {sum})"));
+        }
+        for i in 0..nres {
+            if p.get(i).copied() != Some(contrib[i]) {
+                v("lost-update", format!("shared progress p{i} = {:?} but resource {i} completed {} cycles", p.get(i), contrib[i]));
+            }
+        }
+    }
+    if n != m {
+        v("torn-pair", format!("paired shared variables differ at the end: n = {n}, m = {m}"));
+    }
+    if obs["bad"].as_bool() == Some(true) {
+        v("torn-pair", "a cycle observed n <> m (half-updated set of shared variables)".to_string());
+    }
+    if obs.get("rounds_completed").and_then(Value::as_bool) == Some(false) {
+        v("no-progress", "a healthy resource did not complete its next cycle within 300 polls of the controller (blocked by another resource?)".to_string());
+    }
+    if family == "lost" {
+        let adv = obs["advances"].as_i64().unwrap_or(0);
+        for (i, c) in contrib.iter().enumerate() {
+            if *c != adv + 1 {
+                v("cycle-count", format!("resource {i} completed {c} cycles in {adv} synchronised rounds (expected {})", adv + 1));
+            }
+        }
+    }
+    if family == "fault" {
+        if obs["fault_seen"].as_bool() != Some(true) {
+            v("fault-state", "resource 0 divided by zero in its second cycle but never reported Faulted".to_string());
+        }
+        if states.first().map(String::as_str) != Some("Faulted") {
+            v("fault-state", format!("faulted resource ended in state {:?}", states.first()));
+        }
+    }
+    if family == "pause" || family == "stop-paused" {
+        if obs["pause_seen"].as_bool() != Some(true) {
+            v("pause-lost", "pause() was issued but the resource never reported Paused within 300 polls".to_string());
+        } else {
+            let a = obs["p0_at_paused"].as_i64().unwrap_or(-1);
+            let b = obs["p0_before_resume"].as_i64().unwrap_or(-2);
+            if a != b {
+                v("cycle-while-paused", format!("resource 0 executed cycles while paused: progress {a} -> {b} between observing Paused and resume"));
+            }
+            if obs["state_before_resume"].as_str() != Some("Paused") {
+                v("cycle-while-paused", format!("state left Paused without resume: {}", obs["state_before_resume"]));
+            }
+        }
+        if family == "pause" && obs["progress_after_resume"].as_bool() != Some(true) {
+            v("resume-lost", "resume() was issued but the resource made no further progress".to_string());
+        }
+    }
+    out
+}
+
+fn pool(ctx_threads: usize, deadline: Option<Instant>) -> PoolCfg {
+    PoolCfg {
+        worker: "c20_exec",
+        procs: ctx_threads,
+        rlimit_as: 0,
+        per_case: Duration::from_secs(60),
+        deadline,
+        env: vec![],
+        stack: 8 << 20,
+    }
+}
+
+struct Scn {
+    family: &'static str,
+    resources: usize,
+    advances: usize,
+    bound: usize,
+}
+
+pub fn run(ctx: &Ctx) -> EngineResult {
+    let mut rep = Report::new("model_checking");
+    let scns: Vec<Scn> = match ctx.tier {
+        Tier::Quick => vec![
+            Scn { family: "lost", resources: 2, advances: 1, bound: 2 },
+            Scn { family: "race-stop", resources: 2, advances: 1, bound: 2 },
+            Scn { family: "fault", resources: 2, advances: 1, bound: 2 },
+            Scn { family: "stop-paused", resources: 2, advances: 1, bound: 2 },
+            Scn { family: "gated", resources: 2, advances: 1, bound: 2 },
+            Scn { family: "pause", resources: 2, advances: 1, bound: 2 },
+        ],
+        Tier::Thorough => vec![
+            Scn { family: "lost", resources: 2, advances: 2, bound: 3 },
+            Scn { family: "lost", resources: 3, advances: 1, bound: 3 },
+            Scn { family: "race-stop", resources: 2, advances: 2, bound: 4 },
+            Scn { family: "fault", resources: 2, advances: 2, bound: 3 },
+            Scn { family: "stop-paused", resources: 2, advances: 1, bound: 4 },
+            Scn { family: "gated", resources: 2, advances: 1, bound: 4 },
+            Scn { family: "pause", resources: 2, advances: 1, bound: 3 },
+            Scn { family: "pause", resources: 3, advances: 1, bound: 3 },
+        ],
+    };
+    let total_budget = ctx.tier.pick(45.0, 840.0);
+    let per = total_budget / scns.len() as f64;
+    let mut total_sched = 0u64;
+    let mut total_steps = 0u64;
+    let mut all_outcomes = 0usize;
+    let mut exhaustive = true;
+    let mut scn_reports = Vec::new();
+    for s in &scns {
+        let deadline = Instant::now() + Duration::from_secs_f64(per);
+        let cfg = pool(ctx.threads, Some(deadline));
+        let scenario = json!({"family": s.family, "resources": s.resources, "advances": s.advances});
+        let fam = s.family;
+        let nres = s.resources;
+        let stats = x3::explore(
+            &cfg,
+            &scenario,
+            s.bound,
+            Some(deadline),
+            &|rec| judge(fam, nres, rec),
+            &|rec| {
+                let o = &rec["obs"];
+                format!("n={} p={} states={} saved={}", o["n"], o["p"], o["states"], o["saved"])
+            },
+            &|rec, _case| {
+                let kind = rec["abort"]["kind"].as_str().unwrap_or("");
+                if kind == "deadlock" {
+                    vec![Violation {
+                        signature: format!("C20/deadlock/{fam}"),
+                        what: format!("no thread can make progress: {} ({})", rec["abort"]["detail"], rec["thread_states"]),
+                        case: json!({"clause": "deadlock"}),
+                    }]
+                } else {
+                    Vec::new()
+                }
+            },
+        )
+        .map_err(Machinery)?;
+        // confirm each violation by re-executing its schedule twice
+        let cfg1 = pool(1, None);
+        for v in stats.violations.iter() {
+            let sc = &v.case["scenario"];
+            let r1 = x3::exec_once(&cfg1, sc).map_err(Machinery)?;
+            let r2 = x3::exec_once(&cfg1, sc).map_err(Machinery)?;
+            if r1["trace_hash"] != r2["trace_hash"] || r1["obs"] != r2["obs"] {
+                return machinery(format!("schedule replay is not deterministic for {}", v.signature));
+            }
+            rep.violation(v.clone());
+        }
+        if stats.schedules < 2 || stats.outcomes.len() < 2 && s.family == "race-stop" {
+            return machinery(format!(
+                "vacuous exploration in scenario {}: {} schedules, {} outcomes",
+                s.family,
+                stats.schedules,
+                stats.outcomes.len()
+            ));
+        }
+        total_sched += stats.schedules;
+        total_steps += stats.total_steps;
+        all_outcomes += stats.outcomes.len();
+        if stats.capped {
+            exhaustive = false;
+            rep.cap(format!(
+                "scenario {}({} resources): wall cap; preemption bound completed: {:?} of {}",
+                s.family, s.resources, stats.completed_bound, s.bound
+            ));
+        }
+        if stats.horizon_hits > 0 {
+            rep.cap(format!("scenario {}: {} executions hit the step horizon {HORIZON}", s.family, stats.horizon_hits));
+        }
+        for smp in stats.samples.iter().take(1) {
+            rep.sample(json!({"scenario": scenario, "execution": smp}));
+        }
+        scn_reports.push(json!({
+            "scenario": scenario,
+            "max_preemptions": s.bound,
+            "completed_bound": stats.completed_bound,
+            "schedules": stats.schedules,
+            "schedules_per_bound": stats.per_bound,
+            "distinct_outcomes": stats.outcomes.len(),
+            "outcomes": stats.outcomes.iter().take(12).map(|(k, n)| json!({"outcome": k, "schedules": n})).collect::<Vec<_>>(),
+            "max_decisions_per_execution": stats.max_decisions,
+            "max_steps_per_execution": stats.max_steps,
+            "horizon_hits": stats.horizon_hits,
+            "deadlocks": stats.deadlocks,
+        }));
+        eprintln!(
+            "[C20] {} x{}: {} schedules (per bound {:?}), {} outcomes, completed bound {:?}, {:.1}s",
+            s.family, s.resources, stats.schedules, stats.per_bound, stats.outcomes.len(), stats.completed_bound, ctx.elapsed()
+        );
+    }
+    rep.set("states", total_steps);
+    rep.set("transitions", total_steps);
+    rep.set("traces_validated_against_impl", total_sched);
+    rep.set("schedules", total_sched);
+    rep.set("distinct_outcomes", all_outcomes as u64);
+    rep.set("scenarios", scn_reports);
+    rep.set("exhaustive", exhaustive);
+    rep.set(
+        "explanation",
+        "states/transitions = scheduling points executed over all schedules (stateless exploration: every schedule is a complete execution of the real ResourceRunner threads; no state merging). traces_validated_against_impl = complete schedules executed and judged.",
+    );
+    rep.assume("interleavings at the granularity of Mutex/Condvar/AtomicBool/spawn/join operations and the explicit loop-head and command-drain points; sequentially consistent; no spurious condvar wake-ups");
+    rep.assume("one ManualClock per resource; cycle interval 100 ms; preemption-bounded (see scenarios[].completed_bound)");
+    Ok(rep)
+}
+
+pub fn check_case(case: &Value) -> Vec<Violation> {
+    let sc = &case["scenario"];
+    let fam = sc["family"].as_str().unwrap_or("").to_string();
+    let nres = sc["resources"].as_u64().unwrap_or(2) as usize;
+    let cfg = pool(1, None);
+    let Ok(rec) = x3::exec_once(&cfg, sc) else { return Vec::new() };
+    if rec["abort"].is_null() {
+        judge(&fam, nres, &rec)
+    } else if rec["abort"]["kind"] == "deadlock" {
+        vec![Violation {
+            signature: format!("C20/deadlock/{fam}"),
+            what: format!("no thread can make progress: {}", rec["abort"]["detail"]),
+            case: case.clone(),
+        }]
+    } else {
+        Vec::new()
+    }
 }
 
 pub fn workers() -> Vec<(&'static str, WorkerFn)> {
-    Vec::new()
+    vec![("c20_exec", worker_exec as iso::WorkerFn)]
 }
